@@ -149,7 +149,7 @@ int ThreadsMain(int argc, char** argv) {
   for (long i = from; i < (long)cases.size(); i++) {
     out.line({{"begin", i}});
     Runner r;
-    r.reps = (int)args.num("reps", 5);
+    r.reps = cases[i].value("reps", (int)args.num("reps", 5));   // a case may ask for more repetitions (narrow windows)
     r.run(cases[i], (uint32_t)args.num("seed", 1) + (uint32_t)i);
     if (!r.fails.empty()) nfail++;
     out.line({{"i", i}, {"fail", r.fails}, {"nontrivial", cases[i]["threads"].size() > 1 ? 1 : 0}});
